@@ -14,6 +14,16 @@ CLAIMS = {
         technique=TECH_A, engine='llir', ref='DESIGN.md section 3, C08'),
 }
 
+CLAIMS['C07'] = dict(
+    text='Every feasible path of c_coord2cell / c_cell2coord / c_cell2rowcol / c_neighbours under symbolic nrows, origin, point and cell number is '
+         'shown by z3 to satisfy: row-major numbering, cell2coord = cell centre, point inside a footprint -> that cell, point outside the extent '
+         '(any side or diagonal) -> -1, invalid cells flagged, neighbour table; the coord2cell(cell2coord(c)) round trip is decided under the '
+         'rounding-error model as a QF_NRA lemma on the quotients the real kernels quantise.',
+    note='Bounds: ncols in {1,2,3,5,7,64,1000}, nrows<=1e6 symbolic, nine cell sizes (symbolic in [1e-4,1e4] for the rounding lemma), origins <=1e4 '
+         'cells from zero, points >=1e-9 cells from edges. Rounding lemma composes with the exact integer logic by a stated argument (getnxy stubbed). '
+         'Trusted: clang lowering, IR interpreter (validated against native build each run), z3.',
+    technique=TECH_A, engine='llir', ref='DESIGN.md section 3, C07')
+
 PENDING = 'check not built yet in this session (planned, see DESIGN.md section 3)'
 NOT_APPLICABLE = {
     'C13': 'persistence is carried by numpy tofile/fromfile, dtype objects, zipfile and float repr: no arithmetic core a solver can be given; '
